@@ -104,6 +104,7 @@ EXC_POOL = {
     "Exception": Exception, "KeyError": KeyError, "ProgError": ProgError, "KeyboardInterrupt": KeyboardInterrupt,
     "SystemExit": SystemExit, "GeneratorExit": GeneratorExit, "ProgBaseError": ProgBaseError,
     "StopIteration": StopIteration, "RecursionError": RecursionError, "CancelledError": None,
+    "TypeError": TypeError, "AttributeError": AttributeError, "ValueError": ValueError,
 }
 
 
